@@ -2,7 +2,8 @@ import CashewsVerif.Model.Basic
 /-
 C16 — model of what a transaction block does when backend commands fail.
 
-Mirrors `cashews/wrapper/transaction.py` (`TransactionContextDecorator.__aenter__/__aexit__/close`,
+Mirrors `cashews/wrapper/transaction.py` (`TransactionContextDecorator.__aenter__/__aexit__/close` with the object's own
+state `_tx` / `_inner` — a context object may be kept by the program and entered again, nested in itself: `BodyCmd.block`,
 `Transaction.wrap/commit/rollback/_rollback`) and `cashews/backends/transaction.py`
 (`TransactionBackend.set/incr/get/delete/expire/exists/set_many/delete_many/commit/rollback`,
 `LockTransactionBackend._lock_updates/_unlock_updates/set/incr/delete/expire/set_many/delete_many/commit/rollback`) for ONE task (the
@@ -142,6 +143,13 @@ structure Tx where
   backs : List TxB
   deriving Repr
 
+/-- the mutable fields of a `TransactionContextDecorator` object that the program keeps and may enter again
+(`tx = cache.transaction(); async with tx: …; async with tx: …`) -/
+structure CtxObj where
+  tx : Bool        -- `self._tx is not None`: this object started the transaction that is running
+  inner : Nat      -- `self._inner`: how many open blocks of this object joined a transaction that was already running
+  deriving DecidableEq, Repr
+
 /-- the world: real backends' stores (keyed by (backend id, key)), the clock, the command counter and
 log, the results the body saw, and the task's `_transaction` context variable -/
 structure FWorld where
@@ -152,6 +160,7 @@ structure FWorld where
   log : List Ev
   outs : List Reply
   ctx : Option Tx
+  objs : List (Nat × CtxObj)        -- the shared context objects (absent = as constructed: `_tx = None`, `_inner = 0`)
   deriving Repr
 
 /-- parameters of a run that the code does not change -/
@@ -584,14 +593,68 @@ def txRollback (cfg : Cfg) (ts : List TxB) : M Unit := fun w =>
 
 /-! ### the block -/
 
-/-- `close()`: `self._tx = None; _transaction.reset(self._return_token)` (outermost block: back to None) -/
-def close : M Unit := modW fun w => { w with ctx := none }
+/-- the fields of shared context object `i` -/
+def objOf (w : FWorld) (i : Nat) : CtxObj := (alLookup w.objs i).getD ⟨false, 0⟩
 
-/-- `__aexit__`: `try: commit() if not exc_tb else rollback()  finally: close()` -/
-def aexit (cfg : Cfg) (exc : Bool) : M Unit := fun w =>
+def putObj (w : FWorld) (i : Nat) (v : CtxObj) : FWorld := { w with objs := alPut w.objs i v }
+
+/-- `close()` of block object `o` (`none`: an object used for this one block only — `async with cache.transaction(…):`
+or the decorator form, whose `__call__` builds a new object per call): `self._tx = None;
+_transaction.reset(self._return_token)` (outermost block: back to None) -/
+def closeOn (o : Option Nat) : M Unit := modW fun w =>
+  match o with
+  | none => { w with ctx := none }
+  | some i => { putObj w i { objOf w i with tx := false } with ctx := none }
+
+/-- the tail of `__aexit__` of the block that started the transaction:
+`try: commit() if not exc_tb else rollback()  finally: close()` -/
+def aexitOn (cfg : Cfg) (o : Option Nat) (exc : Bool) : M Unit := fun w =>
   match w.ctx with
-  | none => (.ok (), w)                         -- `if not self._tx ...: return`
-  | some tx => tryFinally (if exc then txRollback cfg tx.backs else commitLoop cfg tx.backs) close w
+  | none => (.ok (), w)                         -- (`self._tx` of an object is only ever set together with the context variable)
+  | some tx => tryFinally (if exc then txRollback cfg tx.backs else commitLoop cfg tx.backs) (closeOn o) w
+
+/-- `close()` / the exit of a one-block object -/
+def close : M Unit := closeOn none
+def aexit (cfg : Cfg) (exc : Bool) : M Unit := aexitOn cfg none exc
+
+/-- `__aenter__`: `if self.current_tx: self._inner += 1; return self.current_tx` — the block JOINS the running transaction
+(result `true`) — else `start()`: `self._tx = tx = Transaction(…); self._return_token = _transaction.set(tx)` -/
+def enterOn (o : Option Nat) (w : FWorld) : Bool × FWorld :=
+  match w.ctx with
+  | some _ =>
+    (true, match o with
+      | none => w
+      | some i => putObj w i { objOf w i with inner := (objOf w i).inner + 1 })
+  | none =>
+    (false, match o with
+      | none => { w with ctx := some ⟨[]⟩ }
+      | some i => { putObj w i { objOf w i with tx := true } with ctx := some ⟨[]⟩ })
+
+/-- `__aexit__`:
+```
+if self._inner: self._inner -= 1; return      # an inner block (of this or of another object's transaction)
+if not self._tx: return
+try: commit() if not exc_tb else rollback()
+finally: close()
+```
+(`joined` stands for the `_inner` of a one-block object: 1 iff it joined) -/
+def exitOn (cfg : Cfg) (o : Option Nat) (joined exc : Bool) : M Unit := fun w =>
+  match o with
+  | none => if joined then (.ok (), w) else aexitOn cfg none exc w
+  | some i =>
+    if (objOf w i).inner ≠ 0 then (.ok (), putObj w i { objOf w i with inner := (objOf w i).inner - 1 })
+    else if (objOf w i).tx then aexitOn cfg (some i) exc w
+    else (.ok (), w)
+
+/-- `async with <object o>: inner` — `__aenter__`, the body, `__aexit__` with `exc_tb` set iff the body raised; an exception
+of `__aexit__` replaces the body's -/
+def blockOn (cfg : Cfg) (o : Option Nat) (inner : M Unit) : M Unit := fun w =>
+  match inner (enterOn o w).2 with
+  | (.ok _, w2) => exitOn cfg o (enterOn o w).1 false w2
+  | (.err e, w2) =>
+    match exitOn cfg o (enterOn o w).1 true w2 with
+    | (.ok _, w3) => (.err e, w3)            -- `__aexit__` returned None: the body's exception propagates
+    | (.err e', w3) => (.err e', w3)         -- commit / rollback raised: that exception replaces it
 
 /-- what the body of the block may do (through the `Cache` facade) -/
 inductive BodyCmd where
@@ -605,10 +668,14 @@ inductive BodyCmd where
   | delMany (b : Nat) (ks : List Nat)
   | expire (b k : Nat) (ttl : Nat)
   | setIf (b k : Nat) (v : Int) (ttl : Option Nat) (exist : Bool)
-  deriving DecidableEq, Repr
+  | block (o : Option Nat) (body : List BodyCmd)   -- a nested `async with`: on shared object `o` (possibly the very object
+                                                   --  of an enclosing block) or on an object of its own (`none`; also a call
+                                                   --  of a function decorated with `@cache.transaction(…)`)
+  deriving Repr
 
 def emit (r : Reply) : M Unit := modW fun w => { w with outs := w.outs ++ [r] }
 
+mutual
 def bodyStep (cfg : Cfg) : BodyCmd → M Unit
   | .set b k v ttl => do let r ← txSet cfg b k v ttl; emit r
   | .incr b k ttl => do let r ← txIncr cfg b k ttl; emit r
@@ -620,26 +687,22 @@ def bodyStep (cfg : Cfg) : BodyCmd → M Unit
   | .delMany b ks => do let r ← txDelMany cfg b ks; emit r
   | .expire b k ttl => do let r ← txExpire cfg b k ttl; emit r
   | .setIf b k v ttl ex => do let r ← txSetIf cfg b k v ttl ex; emit r
+  | .block o body => blockOn cfg o (runBody cfg body)
 
 def runBody (cfg : Cfg) : List BodyCmd → M Unit
   | [] => M.pure ()
   | c :: rest => M.bind (bodyStep cfg c) fun _ => runBody cfg rest
+end
 
-/-- the world the body starts in: `__aenter__` has put a fresh `Transaction` into the context variable -/
-def entered (w : FWorld) : FWorld := { w with ctx := some ⟨[]⟩ }
+/-- the world the body of the outermost block starts in: `__aenter__` has put a fresh `Transaction` into the context variable -/
+def enteredOn (o : Option Nat) (w : FWorld) : FWorld := (enterOn o w).2
+def entered (w : FWorld) : FWorld := enteredOn none w
 
-/-- `async with cache.transaction(mode, timeout): body`.  Entered inside another block it joins it
-(`_inner`): nothing happens on exit. -/
-def runBlock (cfg : Cfg) (body : List BodyCmd) : M Unit := fun w =>
-  match w.ctx with
-  | some _ => runBody cfg body w
-  | none =>
-    match runBody cfg body (entered w) with
-    | (.ok _, w2) => aexit cfg false w2
-    | (.err e, w2) =>
-      match aexit cfg true w2 with
-      | (.ok _, w3) => (.err e, w3)            -- `__aexit__` returned None: the body's exception propagates
-      | (.err e', w3) => (.err e', w3)         -- rollback raised: that exception replaces it
+/-- `async with T: body` for block object `o`.  Entered inside another block it joins it: nothing happens on exit. -/
+def runBlockOn (cfg : Cfg) (o : Option Nat) (body : List BodyCmd) : M Unit := blockOn cfg o (runBody cfg body)
+
+/-- `async with cache.transaction(mode, timeout): body` / `@cache.transaction(mode, timeout)`: an object of its own -/
+def runBlock (cfg : Cfg) (body : List BodyCmd) : M Unit := runBlockOn cfg none body
 
 /-- a facade `cache.set(key, v)` issued by the task: routed to the overlay iff the task is inside a transaction -/
 def facadeSet (cfg : Cfg) (b k : Nat) (v : Int) : M Reply := fun w =>
@@ -656,6 +719,6 @@ def entryView (w : FWorld) (b k : Nat) : Option DEntry :=
   | some e => if liveAt e.dl w.now then some e else none
   | none => none
 
-def FWorld.init : FWorld := ⟨0, 0, [], [], [], [], none⟩
+def FWorld.init : FWorld := ⟨0, 0, [], [], [], [], none, []⟩
 
 end CashewsVerif.TxFault
